@@ -35,6 +35,10 @@ for ID in "$@"; do
     fuzz:*) # fuzz:<target> = replay of the committed corpus of that target (strict: any tag counts)
       "$CARGO_TARGET_DIR/release/vcheck" fuzz-replay --suite "${ID#fuzz:}" --replay "$VERIF/corpus/${ID#fuzz:}" --verif-dir "$W/verif" >"$W/out.$ID" 2>"$W/err.$ID"
       rc=$? ;;
+    *@checked) # <ID>@checked = the check on the checked profile (overflow checks + debug assertions), as run_check.sh does for C12
+      cargo build --profile checked --offline --manifest-path "$W/verif/harness/Cargo.toml" >"$W/buildc.log" 2>&1 || { echo "BUILD-FAILED (checked)"; rc=2; }
+      "$CARGO_TARGET_DIR/checked/vcheck" "${ID%@checked}" --tier "$TIER" --seed "${VERIF_SEED:-0}" --verif-dir "$W/verif" >"$W/out.$ID" 2>"$W/err.$ID"
+      rc=$? ;;
     *)
       "$CARGO_TARGET_DIR/release/vcheck" "$ID" --tier "$TIER" --seed "${VERIF_SEED:-0}" --verif-dir "$W/verif" >"$W/out.$ID" 2>"$W/err.$ID"
       rc=$? ;;
